@@ -16031,7 +16031,13 @@ R_<TG_, TA_>::load(ReadStream& stream) noexcept {
 	TransitionSets emptyTransitions;
 	PlanControl control{_core, emptyTransitions};
 
+	// exits and entries below rewrite resumable prongs, keep the loaded ones
+	CompoForks loadedResumable;
+	overwriteWith(loadedResumable, _core.registry.compoResumable);
+
 	_apex.deepChangeToRequested(control);
+
+	overwriteWith(_core.registry.compoResumable, loadedResumable);
 
 	HFSM2_IF_STRUCTURE_REPORT(udpateActivity());
 }
@@ -16641,7 +16647,13 @@ RV_<G_<NFT_, TC_, Manual, TRO_ HFSM2_IF_UTILITY_THEORY(, TR_, TU_, TG_), NSL_ HF
 	TransitionSets emptyTransitions;
 	PlanControl control{_core, emptyTransitions};
 
+	// entries below rewrite resumable prongs, keep the loaded ones
+	typename Base::CompoForks loadedResumable;
+	overwriteWith(loadedResumable, _core.registry.compoResumable);
+
 	_apex.deepEnter(control);
+
+	overwriteWith(_core.registry.compoResumable, loadedResumable);
 
 	HFSM2_IF_STRUCTURE_REPORT(udpateActivity());
 }
